@@ -303,6 +303,26 @@ func (g *Gen) Leaf(depth int) *R {
 	}
 }
 
+// fmtPlain: a format call for the constructors that format with fmt.Sprintf (WithHintf, WithDetailf):
+// literals, string and integer arguments
+func (g *Gen) fmtPlain() []FP {
+	var out []FP
+	for k := 1 + g.r.intn(3); k > 0; k-- {
+		switch g.r.intn(3) {
+		case 0:
+			out = append(out, FP{Kind: "lit", S: g.rawStr()})
+		case 1:
+			out = append(out, FP{Kind: "str", Verb: []string{"s", "v"}[g.r.intn(2)], S: g.sU()})
+		default:
+			out = append(out, FP{Kind: "int", Verb: "d", I: int64(g.r.intn(2000)) - 500})
+		}
+		if k > 1 {
+			out = append(out, FP{Kind: "lit", S: " "})
+		}
+	}
+	return out
+}
+
 func (g *Gen) maybeEmpty() string {
 	if g.r.chance(30) {
 		return ""
@@ -380,8 +400,14 @@ func (g *Gen) Wrapper(kid *R, depth int) *R {
 	case 4:
 		return &R{Op: "withstack", Kids: k1}
 	case 5, 6:
+		if g.r.chance(30) {
+			return &R{Op: "hintf", Kids: k1, Fmt: g.fmtPlain()}
+		}
 		return &R{Op: "hint", Kids: k1, S: []string{g.maybeEmpty()}}
 	case 7, 8:
+		if g.r.chance(30) {
+			return &R{Op: "detailf", Kids: k1, Fmt: g.fmtPlain()}
+		}
 		return &R{Op: "detail", Kids: k1, S: []string{g.maybeEmpty()}}
 	case 9:
 		return &R{Op: "issuelink", Kids: k1, S: []string{g.urlOrEmpty(), g.maybeEmptyS()}}
